@@ -140,6 +140,10 @@ def realloc_tr(points):
 
 
 # ------------------------------------------------------------------------------ THROW-REACH
+# element operations and allocator requests of the archetypes: the throwing events C09 quantifies over
+THROWING_ARCH = re.compile(r'^arch::(TC|TRnc|NTR|NTRtm|OptOut|MoveOnly|ReallocAlloc|ArenaAlloc)::')
+
+
 def throw_sources(prog):
     src = {}
     for fid, f in prog.fns.items():
@@ -151,7 +155,7 @@ def throw_sources(prog):
         else:
             if f.get('nothrow'):
                 continue
-            if n.startswith('arch::') or n in ('operator new', 'operator new[]') or n.startswith('std::__throw_'):
+            if THROWING_ARCH.match(n) or n in ('operator new', 'operator new[]') or n.startswith('std::__throw_'):
                 src[fid] = 'may throw by contract (%s)' % n
     return src
 
@@ -202,7 +206,7 @@ def throw_reach(progs, discharge=None):
                     x = may[x][0]
                     chain.append(prog.fns[x])
                 reason = src.get(x, '')
-                fin = Finding('THROW-REACH', '%s|%s' % (f['key'], chain[-1]['name']), f['loc'],
+                fin = Finding('THROW-REACH', '%s' % f['key'], f['loc'],
                               'declared noexcept (evaluates to true here) but can reach %s: %s  - an exception would call std::terminate'
                               % (reason, fmt_path(chain)), where=f['pname'], unit=prog.uname,
                               facts={'chain': [c['pname'][:120] for c in chain]})
